@@ -6,6 +6,10 @@
 //@ assume ZXMemory::ram_page_data_mut / rom_page_data_mut (return &mut of a Vec range; vstd has no spec for Vec::index_mut over ranges) are not in this unit: their slice range is proved by Kani harness K-core::memory::page_slices
 //@ assume trait dispatch: the methods of `impl Z80Bus for ZXController` are verified as inherent methods (R-inherent); that the CPU calls exactly these through the trait is Rust semantics, not re-proved
 //@ assume Host/IoExtender/DebugInterface implementations are arbitrary (uninterpreted); IoExtender::extends_port is treated as a pure function of (&self, port)
+//@ assume (C16) Z80::emulate, fastload::tap::fast_load_tap and ZXTape::can_fast_load are external: each is taken to be a *function* of the machine state it is handed (uninterpreted spec fns cpu_step, fast_load, tape_can_fast_load) - what safe Rust without a nondeterminism source gives (scan nondeterminism_sources); what they compute is C01-C03 / C10
+//@ assume (C16) the machine view `mview` leaves out exactly `passed_frames`; that no machine step reads that counter is the scan passed_frames_access together with the whole-struct postcondition of reset_frame_counter
+//@ assume (C16) bitflags-generated EmulationEvents::{is_empty, contains} are external (macro code): pure functions of the bits; Host::EmulationStopwatch is arbitrary: `measure` may return any Duration at any call
+//@ assume external device stubs (ZXScreen, ZXBorder, ZXMixer, ZXTape) carry ghost call logs: a call appends exactly its own entry; nothing is assumed about what the devices do with it
 use vstd::prelude::*;
 use core::time::Duration;
 
